@@ -523,6 +523,79 @@ func c18Bystander(c *mon.Ctx) {
 	}
 }
 
+// c18SeqStorm: many senders and several goroutines whose sends the kernel refuses, on one client: the numbers
+// returned by successful Send calls stay distinct and increasing per goroutine whatever happens to the numbers of
+// failed sends. (No linearizability search here: only the two cheap, exact checks, over many more sends.)
+func c18SeqStorm(c *mon.Ctx) {
+	const N, F = 12, 6
+	M := c.Pick(6000, 60000)
+	for round := 0; round < c.Pick(3, 10); round++ {
+		cl, err := libaudit.NewNetlinkClient(syscall.NETLINK_ROUTE, 0, nil, nil)
+		if err != nil {
+			return
+		}
+		vals := make([][]uint32, N)
+		var wg, fwg sync.WaitGroup
+		stop := make(chan struct{})
+		var refused atomic.Int64
+		for f := 0; f < F; f++ {
+			fwg.Add(1)
+			go func() {
+				defer fwg.Done()
+				big := make([]byte, 300<<10)
+				for {
+					select {
+					case <-stop:
+						return
+					default:
+					}
+					if _, err := cl.Send(syscall.NetlinkMessage{Header: syscall.NlMsghdr{Type: 1, Flags: uapi.NlmFRequest}, Data: big}); err != nil {
+						refused.Add(1)
+					}
+				}
+			}()
+		}
+		for g := 0; g < N; g++ {
+			wg.Add(1)
+			go func(g int) {
+				defer wg.Done()
+				mine := make([]uint32, 0, M)
+				for i := 0; i < M; i++ {
+					v, err := cl.Send(syscall.NetlinkMessage{Header: syscall.NlMsghdr{Type: 1, Flags: uapi.NlmFRequest}})
+					if err != nil {
+						return
+					}
+					mine = append(mine, v)
+				}
+				vals[g] = mine
+			}(g)
+		}
+		wg.Wait()
+		close(stop)
+		fwg.Wait()
+		cl.Close()
+		seen := make(map[uint32]int, N*M)
+		total := 0
+		for g := range vals {
+			for i, v := range vals[g] {
+				total++
+				if i > 0 && v <= vals[g][i-1] && !(vals[g][i-1] > 0xF0000000 && v < 0x10000000) {
+					c.Violation("sequence-not-increasing", fmt.Sprintf("goroutine %d: Send returned %d after %d (%d senders, %d goroutines with refused sends)", g, v, vals[g][i-1], N, F), nil)
+					return
+				}
+				if og, dup := seen[v]; dup {
+					c.Violation("sequence-duplicate", fmt.Sprintf("sequence number %d was returned by two successful Send calls (goroutines %d and %d; %d senders, %d goroutines with refused sends)", v, og, g, N, F), nil)
+					return
+				}
+				seen[v] = g
+			}
+		}
+		c.Add("evaluations", int64(total))
+		c.Add("storm_sends", int64(total))
+		c.Add("storm_sends_refused_by_the_kernel", refused.Load())
+	}
+}
+
 func c18Run(c *mon.Ctx) {
 	// (a)+(c) framing through the kernel's echo
 	cl, err := libaudit.NewNetlinkClient(syscall.NETLINK_ROUTE, 0, make([]byte, 32768), nil)
@@ -659,6 +732,7 @@ func c18Run(c *mon.Ctx) {
 		c.Note("NewAuditClient unavailable here (" + err.Error() + "): the audit client's read buffer size was not inspected")
 	}
 	c18Sequences(c)
+	c18SeqStorm(c)
 	c18Spoof(c)
 	c18Parse(c)
 	c18ParseConcurrent(c)
@@ -679,7 +753,7 @@ func c18Run(c *mon.Ctx) {
 func init() {
 	register(&mon.CheckSpec{
 		ID: "C18", Level: "exploration",
-		Rule: "cases = (a,c) requests sent with NetlinkClient.Send on a real NETLINK_ROUTE socket - types 0..15 with NLM_F_ACK (header-only echo) and random types in 256..65535 (never 16..255: live rtnetlink operations), flags = any 16 bits | NLM_F_REQUEST (and any 16 bits | NLM_F_ACK without NLM_F_REQUEST: acknowledged unprocessed, header echoed), payload lengths 0..8970 (every 37th quick, every length thorough) plus every length 0..64, random short payloads, and clients whose caller-supplied read buffer the reply fills exactly or with 1/4/64 bytes to spare - (most through a second client opened while a first one is open, so the socket's port id differs from the process id) whose NLMSG_ERROR reply, read back with Receive, carries the request as the kernel saw it (length, type, flags, port id, sequence = returned value, payload bytes); (b) N in {2,4,16} goroutines x M sends on one client: per-goroutine increasing, globally distinct, and the recorded {call, return, value} history checked with porcupine against a strictly increasing counter model (direct interval check when porcupine gives up); (d) datagrams of every length 0..64 and random longer ones, arbitrary and ACK-shaped contents, unicast and multicast from a second user-space netlink socket (NETLINK_ROUTE as root, NETLINK_USERSOCK): Receive must return an error and no message, and a later kernel reply must still be received; (e) AuditClient.Receive over the simulated Netlink with datagrams of every length 0..64 and random longer ones ending at a PROT_NONE page; (f) eight AuditClients, each with its own transport and goroutine, receiving at the same time: each gets the type and payload of its own datagram; (g) a client bound to an otherwise unused multicast group sends NLMSG_NOOP requests while a second socket in the same group listens: it must receive nothing (requests are addressed to the kernel only). Runs under the race detector; ASan in thorough. distinct_nontrivial = distinct frames, spoofed datagrams, parse inputs and sequence histories.",
+		Rule: "cases = (a,c) requests sent with NetlinkClient.Send on a real NETLINK_ROUTE socket - types 0..15 with NLM_F_ACK (header-only echo) and random types in 256..65535 (never 16..255: live rtnetlink operations), flags = any 16 bits | NLM_F_REQUEST (and any 16 bits | NLM_F_ACK without NLM_F_REQUEST: acknowledged unprocessed, header echoed), payload lengths 0..8970 (every 37th quick, every length thorough) plus every length 0..64, random short payloads, and clients whose caller-supplied read buffer the reply fills exactly or with 1/4/64 bytes to spare - (most through a second client opened while a first one is open, so the socket's port id differs from the process id) whose NLMSG_ERROR reply, read back with Receive, carries the request as the kernel saw it (length, type, flags, port id, sequence = returned value, payload bytes); (b) N in {2,4,16} goroutines x M sends on one client: per-goroutine increasing, globally distinct, and the recorded {call, return, value} history checked with porcupine against a strictly increasing counter model (direct interval check when porcupine gives up), and a storm of 12 senders beside 6 goroutines whose sends the kernel refuses (distinct and per-goroutine increasing only); (d) datagrams of every length 0..64 and random longer ones, arbitrary and ACK-shaped contents, unicast and multicast from a second user-space netlink socket (NETLINK_ROUTE as root, NETLINK_USERSOCK): Receive must return an error and no message, and a later kernel reply must still be received; (e) AuditClient.Receive over the simulated Netlink with datagrams of every length 0..64 and random longer ones ending at a PROT_NONE page; (f) eight AuditClients, each with its own transport and goroutine, receiving at the same time: each gets the type and payload of its own datagram; (g) a client bound to an otherwise unused multicast group sends NLMSG_NOOP requests while a second socket in the same group listens: it must receive nothing (requests are addressed to the kernel only). Runs under the race detector; ASan in thorough. distinct_nontrivial = distinct frames, spoofed datagrams, parse inputs and sequence histories.",
 		Assumptions: []string{
 			"the running kernel echoes rejected NETLINK_ROUTE requests in NLMSG_ERROR replies (netlink_ack) and delivers user-to-user netlink datagrams for root; if sockets cannot be opened the check is inconclusive, not green",
 			"message types 16..255 are never sent (they are live rtnetlink operations)",
